@@ -522,7 +522,7 @@ def corpus_cases():
     return {
         "K19": Case("T", inf, cls="corpus:K19"),
         "K20": Case("X", X="(" * 20000 + "1" + ")" * 20000, D="<a/>", cls="corpus:K20"),
-        "K9": Case("T", tmpl("<xsl:number value='1" + "0" * 30 + "'/>"), cls="corpus:K9", expect=("count", 10 ** 30)),
+        "K9": Case("T", tmpl("<xsl:number value='1" + "0" * 30 + "'/>"), cls="corpus:K9", expect=("count", int(1e30))),
         "K-new-1": Case("T", vo("math:constant('PI', 50)"), cls="corpus:K-new-1"),
         "K-new-2": Case("T", vo("str:padding(-1)"), cls="corpus:K-new-2"),
         "K-new-3": Case("T", sheet("<xsl:param name='p' select='1'/><xsl:template match='/'><xsl:value-of select='$p'/></xsl:template>"), P={"p": "$q"}, cls="corpus:K-new-3"),
